@@ -710,6 +710,7 @@ func cmdDrive(args []string) {
 		smp    []interface{}
 	}{fps: map[string]struct{}{}, inters: map[string]struct{}{}, probes: map[string]int64{}}
 	var firstViol *workerLine
+	workerDied := false
 	for w, r := range results {
 		done := false
 		for i := range r.lines {
@@ -748,9 +749,13 @@ func cmdDrive(args []string) {
 			if strings.Contains(r.stderr, "fatal error: concurrent map") {
 				fmt.Printf("fatal runtime error in worker %d (see stderr)\n", w)
 			}
-			os.Exit(2)
+			workerDied = true
 		}
 	}
+	if workerDied && firstViol == nil {
+		os.Exit(2)
+	}
+	// (a worker that died while another one found a violation: the violation is reported; the death is on stderr)
 
 	viols := 0
 	var replayPath string
